@@ -32,7 +32,7 @@ let run_fenv (args : string list) : string =
      | Ok (ext, names) -> "ok:" ^ names_str names ^ "|" ^ String.concat "," (List.map hex_of_scalars ext)
      | Err _ -> "err" | Panic -> "panic" | OutOfFuel -> "fuel")
   | ["xls"; sh; rs] ->
-    (match FormulaEnv.xls_read_names (name_list sh) (recs rs) with
+    (match FormulaEnv.xls_read_names Cmd_ptg.show_f64 (name_list sh) (recs rs) with
      | Ok (names, xtis) ->
        "ok:" ^ names_str names ^ "|" ^
        String.concat "," (List.map (fun ((a, b), c) -> string_of_n a ^ ":" ^ string_of_n b ^ ":" ^ string_of_n c) xtis)
